@@ -30,6 +30,11 @@ def fault_kinds(r, q):
             {"name": ["l1"] + nm, "type": "CNAME", "data": rc.dotted(nm), "target": nm, "ttl": 60}]}},
         {"kind": "custom", "reply": {"rcode": 0, "aa": True, "authority": [], "additional": [], "answers": [
             {"name": nm, "type": "CNAME", "data": rc.dotted(nm), "target": nm, "ttl": 60}]}},
+        # an alias that leads into a loop which does not pass through the question name
+        {"kind": "custom", "reply": {"rcode": 0, "aa": True, "authority": [], "additional": [], "answers": [
+            {"name": nm, "type": "CNAME", "data": rc.dotted(["l1"] + nm), "target": ["l1"] + nm, "ttl": 60},
+            {"name": ["l1"] + nm, "type": "CNAME", "data": rc.dotted(["l2"] + nm), "target": ["l2"] + nm, "ttl": 60},
+            {"name": ["l2"] + nm, "type": "CNAME", "data": rc.dotted(["l1"] + nm), "target": ["l1"] + nm, "ttl": 60}]}},
         # contradiction: NXDOMAIN with an answer, referral plus answer
         {"kind": "custom", "reply": {"rcode": 3, "aa": True, "additional": [], "answers": [
             {"name": nm, "type": "A", "data": "6.6.6.6", "target": [], "ttl": 60}],
@@ -87,6 +92,11 @@ def hostile_scenarios(r):
                                                          "target": chain[i + 1], "ttl": 60}]}})
     for mode in ("recursive", "forwarding"):
         out.append(rc.scenario([hints], [], mode, [{"name": chain[0], "type": "A"}], table=table, default={"rcode": 2}))
+        # the same with every exchange answered after 4 s: the 60 s budget runs out in the middle of the chain
+        for d in (4000, 4999, 2500):
+            out.append(rc.scenario([hints], [], mode, [{"name": chain[0], "type": "A",
+                                                        "faults": {str(i): {"kind": "delay", "delay_ms": d} for i in range(80)}}],
+                                   table=table, default={"rcode": 2}))
     return out
 
 
@@ -149,6 +159,6 @@ def run(tier):
                   "virtual_ms": ln["runs"][0]["t1"] - ln["runs"][0]["t0"],
                   "exchanges": [[e["t"], e["addr"], "tcp" if e["tcp"] else "udp", e["faultkind"]] for e in ln["runs"][0]["exchanges"]]})
     v.distinct = v.evaluations
-    if longest < 10000:
+    if longest < 59000 or not any(k.endswith("Timeout") for k in outcomes):
         raise vlib.ToolError("vacuous run: no resolution was slowed down")
     return v.finish()
